@@ -33,7 +33,11 @@ def plan(tier: str):
             ('geophires', mc.GEO_BASE, [('Utilization Factor', 'uniform', 0.7, 1.2, None)], mc.GEO_OUTPUTS[:1], 36, 1),
             # sampled names that are prefixes of other parameters the base sets to non-default values: only the sampled ones may change
             ('geophires', mc.GEO_BASE + PREFIXED, [('Inflation Rate', 'uniform', 0.01, 0.04, None), ('Reservoir Volume', 'normal', 1.5e9, 1.0e8, None),
-                                                   ('Well Drilling and Completion Capital Cost', 'uniform', 4.0, 6.0, None)], mc.GEO_OUTPUTS, 8, 2)]
+                                                   ('Well Drilling and Completion Capital Cost', 'uniform', 4.0, 6.0, None)], mc.GEO_OUTPUTS, 8, 2),
+            # the driver process has run a study on the same base FILE before, when it held other content (one figure differed): every
+            # row must still re-simulate from the base the study was given
+            ('geophires', mc.GEO_BASE, mc.GEO_INPUTS[:2], mc.GEO_OUTPUTS, 6, 2, 'prelude'), ('hip_ra_x', mc.HIP_BASE, mc.HIP_INPUTS, mc.HIP_OUTPUTS, 24, 4, 'prelude'),
+            ('hip_ra_x', mc.HIP_BASE, mc.HIP_INPUTS, mc.HIP_OUTPUTS, 24, 4, 'stale_lock')]
     if tier == 'thorough':
         for w in (1, 2, 4, 16):
             runs.append(('geophires', mc.GEO_BASE, mc.GEO_INPUTS, mc.GEO_OUTPUTS, rng.choice([40, 80]), w))
@@ -77,7 +81,7 @@ def replay(path: str) -> int:
     res = Result('C14', 'quick')
     inputs = [(i['name'], i['dist'], float(Fraction(i['a'])), float(Fraction(i['b'])),
                float(Fraction(i['c'])) if i['dist'] == 'triangular' else None) for i in data['inputs']]
-    traces, raw = execute([(data['kind'], data['base'], inputs, data['outputs'], data['iterations'], data['workers'])], replay=True)
+    traces, raw = execute([(data['kind'], data['base'], inputs, data['outputs'], data['iterations'], data['workers']) + ((data['history'],) if data.get('history') else ())], replay=True)
     judge(res, traces, raw, CLAUSES, 'C14')
     res.case('again')
     return res.finish()
